@@ -77,7 +77,9 @@ def classify(outcomes, res):
             if o.get("build_failed"):
                 res.notes.append("a pre-state could not be built (mutators broken?): %s" % str(o["built"])[:200])
                 continue
-            if "raised" in o or "raised_after" in o:
+            if core.interpreter_limit(o.get("raised") or o.get("raised_after"), o.get("pre", {}).get("par", {})):
+                res.extra["skipped_at_the_interpreters_recursion_limit"] = res.extra.get("skipped_at_the_interpreters_recursion_limit", 0) + 1
+            elif "raised" in o or "raised_after" in o:
                 res.violation({"property": "C19", "module": "clone", "why": "%s of node %s raised %s" % (z["how"], o["n"], o.get("raised") or o.get("raised_after")),
                                "vec": att["vec"], "obs": o})
             elif "C19" in att.get("verdict", []):
